@@ -3,6 +3,8 @@ CONSTANTS
   PWSeq <- PW4
   HAlgs = {"rc4_40", "rc4_128", "aes_128", "aes_256", "aes_256_r6"}
   DeepAlgs = {"rc4_40", "rc4_128", "aes_128", "aes_256", "aes_256_r6"}
+  Reals = {0}
+  RealLen = 2
   MaxLen = 3
   ProbeAll = FALSE
   Emit = TRUE
